@@ -1137,7 +1137,7 @@ class ConnectionBase(object):
                 # calculate the size of the packet so far + this message
                 size = len(msg.payload) + Packet.overhead(1+len(msgs)) + current_msg_length
                 # if the message fits add it to the packet
-                if size <= Packet.MAX_PAYLOAD_SIZE + Packet.MESSAGE_OVERHEAD_1:
+                if size <= Packet.MAX_PAYLOAD_SIZE + Packet.MESSAGE_OVERHEAD_1 and len(msgs) < 255:
                     del self.pending_retry_msg[msgseq]
                     msgs.append(msg)
                     current_msg_length += len(msg.payload)
@@ -1154,7 +1154,7 @@ class ConnectionBase(object):
             # calculate the size of the packet so far + this message
             size = len(pending.payload) + Packet.overhead(1+len(msgs)) + current_msg_length
             # if the message fits add it to the packet
-            if size <= Packet.MAX_PAYLOAD_SIZE + Packet.MESSAGE_OVERHEAD_1:
+            if size <= Packet.MAX_PAYLOAD_SIZE + Packet.MESSAGE_OVERHEAD_1 and len(msgs) < 255:
                 self.outgoing_messages.pop(idx)
                 msgs.append(pending)
                 current_msg_length += len(pending.payload)
